@@ -27,7 +27,17 @@ def history_loops(fi):
                 out.append(n)
             continue
         for it in its:
-            txt = ast.unparse(it)
+            # a position normalised with absindex(i, len(candles)) is a position, not a length: only a bound that is itself len(..) counts
+            class _Strip(ast.NodeTransformer):
+                def visit_Call(s_, c):
+                    s_.generic_visit(c)
+                    if call_name(c) == "absindex":
+                        return ast.copy_location(ast.Name(id="__pos__", ctx=ast.Load()), c)
+                    return c
+
+            import copy as _copy
+
+            txt = ast.unparse(_Strip().visit(_copy.deepcopy(it)))
             core = it
             while isinstance(core, ast.Call) and call_name(core) in ("reversed", "enumerate", "list", "iter") and core.args:
                 core = core.args[0]
